@@ -5,5 +5,5 @@ for p in "$@"; do
   t0=$(date +%s)
   out=$(./check $p thorough 2>&1); rc=$?
   echo "$p thorough rc=$rc $(( $(date +%s)-t0 ))s  $(echo "$out" | grep -a -c '^VIOLATION') violations"
-  echo "$out" | grep -a -A4 '^VIOLATION\|^KNOWN-FINDING\| done' | cut -c1-400
+  echo "$out" | grep -a -A4 '^VIOLATION\|^KNOWN-FINDING\| done\|harness trouble\|no heap report' | cut -c1-400
 done
